@@ -2,6 +2,19 @@
 """writes MANIFEST.json from the table below (kept in one place so that it stays valid)"""
 import json
 CHECKS = {
+ "C16": dict(
+   text="Partial proof. Proved on a Lean model of the private state machine of DiffRHS.jac: after EVERY sequence of jac(t, y) requests at "
+        "varying times, hooks, attribute assignments, unhooks and set_jac_base_order calls, the next request is answered by the user's "
+        "Jacobian if one is attached, else by the right-hand side's own jac attribute, else by finite differences of the right-hand side "
+        "evaluated at the requested time (never at a cached time), and it never fails (dispatch_correct, by an invariant linking the "
+        "private fields to the ghost 'attached function'); the finite-difference stencils regenerated from the code (2..8 nodes) are exact "
+        "on polynomials below their node count to 1e-12. Tied to the code by replaying random op sequences on the real wrapper, observing "
+        "who answered (tagged functions) and at which times the right-hand side was evaluated. Measured, not proved: accuracy on smooth "
+        "non-polynomial maps, the [i..., j...] layout for non-square and multi-dimensional shapes, linear maps to rounding.",
+   note="Trusted: Lean kernel, standard axioms, translate.py (stencils), harness. Richardson extrapolation of the finite differences and its "
+        "adaptive stopping rule are not modelled.",
+   technique="Lean 4 proof (state-machine invariant over arbitrary op sequences; verified computation on generated stencils) + op-sequence differential testing",
+   design="5 (C16)"),
  "C18": dict(
    text="Proof about a Lean model of the glue in solve_ivp plus the loop model of C03: args are bound in order to the parameters after (t, y); "
         "the step-clipping callback returns a step of magnitude within [min_step, max_step] with the sign of the current step (also for "
